@@ -124,9 +124,8 @@ CoreVerify(k, a, pk, sig, gens, hdr, ms) ==
 \* proofs: proof_init, challenge, proof_finalize, proof_verify_init
 \* ------------------------------------------------------------------------
 \* sorted sequence of a finite set of naturals
-RECURSIVE SortSet(_)
-SortSet(S) == IF S = {} THEN << >>
-              ELSE LET m == CHOOSE x \in S : \A y \in S : x <= y IN << m >> \o SortSet(S \ {m})
+LOCAL INSTANCE SequencesExt
+SortSet(S) == SetToSortSeq(S, LAMBDA a, b : a < b)
 \* undisclosed indexes (0-based) of a vector of length L given the disclosed set
 Undisclosed(L, D) == SortSet({i \in 0 .. L - 1 : i \notin D})
 
